@@ -69,7 +69,7 @@ struct ThetaCompactTr : TrBase {
 };
 struct ThetaUnionTr : TrBase {
   typedef theta_union_alloc<A64> Sk; static std::string nm() { return "theta-union"; }
-  static Sk* make(int arena) { return new Sk(Sk::builder(A64(arena)).set_lg_k(5).build()); }
+  static Sk* make(int arena) { return new Sk(Sk::builder(A64(arena)).set_lg_k(arena == 1 ? 6 : 5).build()); }
   static void a(Sk& s, int n) { s.update(ThetaCompactTr::src(7, 3 + n)); } static void b(Sk& s, int n) { UTheta u = ThetaCompactTr::src(8, 70 + n); s.update(std::move(u)); }
   static const bool has_merge = false; static void merge(Sk&, const Sk&) {} static void merge_move(Sk&, Sk&&) {}
   static const bool has_reset = true; static void reset(Sk& s) { s.reset(); }
@@ -187,7 +187,7 @@ struct HllTr : TrBase {
 };
 struct HllUnionTr : TrBase {
   typedef HllU Sk; static std::string nm() { return "hll-union"; }
-  static Sk* make(int arena) { return new Sk(8, A8(arena)); }
+  static Sk* make(int arena) { return new Sk(arena == 1 ? 9 : 8, A8(arena)); }   // slots differ in lg_max_k
   static Hll src(int n, target_hll_type t, int lgk) { Hll h((uint8_t)lgk, t, false, A8(7)); for (int i = 0; i < n; ++i) h.update((uint64_t)i * 31); return h; }
   static void a(Sk& s, int n) { s.update(src(5 + n, HLL_8, 8)); } static void b(Sk& s, int n) { Hll h = src(400 + n, n % 2 ? HLL_4 : HLL_6, 9); s.update(std::move(h)); }
   static const bool has_merge = false; static void merge(Sk&, const Sk&) {} static void merge_move(Sk&, Sk&&) {}
@@ -197,7 +197,7 @@ struct HllUnionTr : TrBase {
 };
 struct CpcTr : TrBase {
   typedef Cpc Sk; static std::string nm() { return "cpc-sketch"; }
-  static Sk* make(int arena) { return new Sk(5, DEFAULT_SEED, A8(arena)); }
+  static Sk* make(int arena) { return new Sk(arena == 1 ? 6 : 5, DEFAULT_SEED, A8(arena)); }
   static void a(Sk& s, int n) { s.update((uint64_t)n); } static void b(Sk& s, int n) { for (int i = 0; i < (n % 2 ? 20 : 150); ++i) s.update((uint64_t)(1000 * n + i)); }
   static const bool has_merge = false; static void merge(Sk&, const Sk&) {} static void merge_move(Sk&, Sk&&) {}
   static std::string obs(Sk& s) { return CpcObj::obs_of(s); }
@@ -205,7 +205,7 @@ struct CpcTr : TrBase {
 };
 struct CpcUnionTr : TrBase {
   typedef CpcU Sk; static std::string nm() { return "cpc-union"; }
-  static Sk* make(int arena) { return new Sk(5, DEFAULT_SEED, A8(arena)); }
+  static Sk* make(int arena) { return new Sk(arena == 1 ? 7 : 5, DEFAULT_SEED, A8(arena)); }   // slots differ in lg_k
   static Cpc src(int n, int lgk) { Cpc c((uint8_t)lgk, DEFAULT_SEED, A8(7)); for (int i = 0; i < n; ++i) c.update((uint64_t)i * 31); return c; }
   static void a(Sk& s, int n) { s.update(src(3 + n, 5)); } static void b(Sk& s, int n) { Cpc c = src(200 + n, 6); s.update(std::move(c)); }
   static const bool has_merge = false; static void merge(Sk&, const Sk&) {} static void merge_move(Sk&, Sk&&) {}
@@ -214,7 +214,7 @@ struct CpcUnionTr : TrBase {
 };
 struct FiTr : TrBase {
   typedef FiObj<Item>::Sk Sk; static std::string nm() { return "frequent_items<item>"; }
-  static Sk* make(int arena) { return new Sk(3, 3, ItemEqual(), TrackAlloc<Item>(arena)); }
+  static Sk* make(int arena) { return new Sk(arena == 1 ? 4 : 3, 3, ItemEqual(), TrackAlloc<Item>(arena)); }
   static void a(Sk& s, int n) { s.update(Item(n), 2); } static void b(Sk& s, int n) { for (int i = 0; i < 9; ++i) s.update(Item(100 * n + i), 1 + i % 3); }
   static void merge(Sk& s, const Sk& o) { s.merge(o); } static void merge_move(Sk& s, Sk&& o) { s.merge(std::move(o)); }
   static std::string obs(Sk& s) { return FiObj<Item>::obs_of(s); }
@@ -241,7 +241,7 @@ struct VoTr : TrBase {
 };
 struct VuTr : TrBase {
   typedef var_opt_union<Item, TrackAlloc<Item> > Sk; typedef VoObj<Item>::Sk VS; static std::string nm() { return "var_opt_union<item>"; }
-  static Sk* make(int arena) { return new Sk(3, TrackAlloc<Item>(arena)); }
+  static Sk* make(int arena) { return new Sk(arena == 1 ? 5 : 3, TrackAlloc<Item>(arena)); }   // slots differ in max_k
   static VS src(int n, int k) { VS v((uint32_t)k, resize_factor::X8, TrackAlloc<Item>(7)); for (int i = 0; i < n; ++i) v.update(Item(i), 1.0 + (i % 3)); return v; }
   static void a(Sk& s, int n) { s.update(src(2 + n, 4)); } static void b(Sk& s, int n) { VS v = src(12 + n, 2); s.update(std::move(v)); }
   static const bool has_merge = false; static void merge(Sk&, const Sk&) {} static void merge_move(Sk&, Sk&&) {}
@@ -260,7 +260,7 @@ struct EbTr : TrBase {
 };
 struct TdTr : TrBase {
   typedef TdObj<double>::Sk Sk; static std::string nm() { return "tdigest<double>"; }
-  static Sk* make(int arena) { return new Sk(10, TrackAlloc<double>(arena)); }
+  static Sk* make(int arena) { return new Sk(arena == 1 ? 20 : 10, TrackAlloc<double>(arena)); }
   static void a(Sk& s, int n) { s.update(1.5 * n); } static void b(Sk& s, int n) { for (int i = 0; i < 260; ++i) s.update((i * 37 % 101) + n); }
   static void merge(Sk& s, const Sk& o) { s.merge(o); } static void merge_move(Sk& s, Sk&& o) { s.merge(o); }
   static std::string obs(Sk& s) { return TdObj<double>::obs_of(s) + "|buf=" + str(s.buffer_.size()) + "|cent=" + str(s.centroids_.size()); }
